@@ -18,6 +18,7 @@ class HeapView:
     edges: list[list[tuple[str, str, int]]]   # per node: (label, class, child number)
     cls: list[int]                   # structural class: number of the first equal object
     root: int
+    attrs: list[int] = None          # fingerprint class of the non-child, non-tag data
 
     def kind(self, i: int) -> str:
         return type(self.nodes[i]).__name__
@@ -27,7 +28,7 @@ class HeapView:
         for i, n in enumerate(self.nodes):
             tags = " ".join(sorted({type(t).__name__ for t in (getattr(n, "tags", None) or ())}))
             kids = " ".join(f"({c} {j})" for _, c, j in self.edges[i])
-            parts.append(f"({type(n).__name__} ({tags}) ({kids}) {self.cls[i]})")
+            parts.append(f"({type(n).__name__} ({tags}) ({kids}) {self.cls[i]} {self.attrs[i]})")
         return "(" + " ".join(parts) + ")"
 
     def reach(self, start: int, follow=lambda kind, cls: True) -> set[int]:
@@ -64,7 +65,51 @@ def view(root, into_functions: bool = True) -> HeapView:
             cls.append(first.setdefault(n, i))
         except TypeError:
             cls.append(i)
-    return HeapView(nodes, index, edges, cls, index[id(root)])
+    fps: dict[Any, int] = {}
+    attrs = [fps.setdefault(attr_key(n), len(fps)) for n in nodes]
+    return HeapView(nodes, index, edges, cls, index[id(root)], attrs)
+
+
+def _tok(v):
+    """a field value with every array / container / function inside replaced by '@'"""
+    import dataclasses
+    from collections.abc import Mapping
+
+    from pytato.array import NormalizedSlice, SparseMatrix
+    from pytato.distributed.nodes import DistributedSend
+    if reflect._is_node(v):
+        return "@"
+    if isinstance(v, tuple):
+        return tuple(_tok(x) for x in v)
+    if isinstance(v, Mapping):
+        return tuple(sorted(((str(k), _tok(x)) for k, x in v.items()), key=lambda p: p[0]))
+    if isinstance(v, (NormalizedSlice, SparseMatrix, DistributedSend)):
+        return (type(v).__name__,) + tuple(
+            (f.name, _tok(getattr(v, f.name))) for f in dataclasses.fields(v) if f.name != "non_equality_tags")
+    try:
+        hash(v)
+        return v
+    except TypeError:
+        return ("unhashable", id(v))
+
+
+def attr_key(n):
+    """everything `==` looks at besides the node's children and its own tags, by reflection"""
+    import dataclasses
+
+    from pytato.array import DataWrapper, DictOfNamedArrays
+    from pytato.function import FunctionDefinition
+    if isinstance(n, DataWrapper):
+        return ("DataWrapper", id(n))            # data wrappers are equal only when identical
+    # tag INSTANCES (tags may carry parameters, e.g. FunctionIdentifier) belong to the fingerprint;
+    # NodeData.tags lists the tag TYPES only (what TagCountMapper looks at)
+    if isinstance(n, DictOfNamedArrays):
+        return ("DictOfNamedArrays", tuple(sorted(n._data)), n.tags)
+    if isinstance(n, FunctionDefinition):
+        return ("FunctionDefinition", n.parameters, n.return_type, tuple(sorted(n.returns)), n.tags)
+    return (type(n).__name__,) + tuple(
+        (f.name, _tok(getattr(n, f.name))) for f in dataclasses.fields(n)
+        if f.name != "non_equality_tags")
 
 
 def excl(pairs) -> str:
